@@ -4,6 +4,7 @@ package c07
 // nothing else that is random: session contexts and dealt key material are fixed functions of the key seed.
 
 import (
+	"github.com/bronlabs/bron-crypto/pkg/mpc/zero/przs"
 	"context"
 	"encoding/hex"
 	"fmt"
@@ -109,6 +110,9 @@ func runNet[O any](x mcrt.Chooser, ids []ID, taps map[ID]*tap, party schednet.Pa
 		if t := taps[m.From]; t != nil && t.atFirstSend < 0 {
 			t.atFirstSend = t.Bytes
 		}
+		if t := taps[m.From]; t != nil && (len(t.marks) == 0 || t.marks[len(t.marks)-1] != t.Calls) {
+			t.marks = append(t.marks, t.Calls)
+		}
 		if _, ok := first[m.From]; !ok {
 			first[m.From] = baseCid(m.Cid)
 		}
@@ -165,6 +169,37 @@ func sessionCase(ids []ID) *kase {
 		if o.allOK() {
 			sid := res[ids[0]].Out.SessionID()
 			o.joint["sid"] = hx(sid[:])
+			// zero shares derived from the session: of the whole quorum and of every sub-quorum (every pairwise seed
+			// absorbs the common seed, which every party's commitments enter, so each of them depends on everybody)
+			field := k256.NewScalarField()
+			for mask := 3; mask < 1<<len(ids); mask++ {
+				var sub []ID
+				for i, id := range ids {
+					if mask&(1<<i) != 0 {
+						sub = append(sub, id)
+					}
+				}
+				if len(sub) < 2 {
+					continue
+				}
+				for _, id := range sub {
+					c := res[id].Out.Clone()
+					if len(sub) < len(ids) {
+						sc, err := c.SubContext(proto.Set(sub...))
+						if err != nil {
+							o.parties[id].ok, o.parties[id].err = false, fmt.Errorf("SubContext(%v): %w", sub, err)
+							return o
+						}
+						c = sc
+					}
+					z, err := przs.SampleZeroShare(c, field)
+					if err != nil {
+						o.parties[id].ok, o.parties[id].err = false, fmt.Errorf("SampleZeroShare over %v: %w", sub, err)
+						return o
+					}
+					o.joint[fmt.Sprintf("zeroshare/%d/%d", mask, id)] = hx(z.Value().Bytes())
+				}
+			}
 		}
 		return o
 	}}
